@@ -159,6 +159,11 @@ def run(chk, tier, seed):
     nh = 260 if quick else 3000
     hsel = by_kind["hxc"][:nh] + by_kind["hfe"][:nh] + by_kind["dump"][:nh] + by_kind["mmb"]
     csel = clis[: (700 if quick else 12000)]
+    # every command at least once after exactly one good --file (and with --verbose in front), whatever the sample holds
+    have = {(tuple(c["opts"]), c["cmd"]) for c in csel}
+    for c in clis:
+        if tuple(c["opts"]) in (("file-ok",), ("verbose", "file-ok")) and (tuple(c["opts"]), c["cmd"]) not in have:
+            csel.append(c)
     cmds = [["cat"], ["info", "#.*"], ["free"], ["space"], ["sector-map"], ["show-titles"], ["type", "A"], ["dump-sector", "0", "0", "1"],
             ["extract-unused", "{DEST}"], ["extract-files", "{DEST}"]]
     events = []
